@@ -185,6 +185,8 @@ def build_models(I):
             z3.Implies(zx == 0, z3.And(s == 0, c == 1)),
             z3.Implies(z3.And(zx > 0, zx < PI), s > 0),
             z3.Implies(z3.And(zx < 0, zx > -PI), s < 0),
+            z3.Implies(z3.And(zx > PI, zx < 2 * PI), s < 0),
+            z3.Implies(z3.And(zx < -PI, zx > -2 * PI), s > 0),
             z3.Implies(z3.And(zx > -PI / 2, zx < PI / 2), c > 0),
             z3.Implies(z3.Or(z3.And(zx > PI / 2, zx < 3 * PI / 2), z3.And(zx < -PI / 2, zx > -3 * PI / 2)), c < 0),
             z3.Implies(z3.Or(zx == PI / 2), z3.And(s == 1, c == 0)),
